@@ -216,6 +216,8 @@ enum Cause {
     Panic,
     /// the exiting actor's task is dropped before its k-th poll (task cancellation)
     Abort(usize),
+    /// the same, and the state of the exiting actor panics when it is dropped (as part of the dropped task)
+    AbortBomb(usize),
     /// stop, with a post_stop that takes a while: the actor is Stopping, its child set still open
     SlowStop,
     /// drain with a backlog of slow messages: the actor is Draining for a while
@@ -253,6 +255,8 @@ fn live_body(shape: Shape, at_root: bool, cause: Cause, race: Race, local_child:
                 async move {
                     let prog = if matches!(cause, Cause::SlowStop) && (id == "R" || id == "A") {
                         Prog { post_stop: vec![Step::Yield, Step::SleepMs(2), Step::Yield], ..Default::default() }
+                    } else if matches!(cause, Cause::AbortBomb(_)) && id == (if at_root { "R" } else { "A" }) {
+                        Prog { state_drop_panics: true, ..Default::default() }
                     } else {
                         Prog::default()
                     };
@@ -311,7 +315,7 @@ fn live_body(shape: Shape, at_root: bool, cause: Cause, race: Race, local_child:
                         let _ = d2.cast(do_msg(2, vec![Step::SleepMs(2)]));
                         let _ = d2.drain();
                     }
-                    Cause::Abort(_) => {
+                    Cause::Abort(_) | Cause::AbortBomb(_) => {
                         // keep the actor task busy so that its k-th poll comes
                         let _ = d2.cast(do_msg(1, vec![Step::Yield, Step::Tick, Step::Yield, Step::Tick]));
                         let _ = d2.cast(do_msg(2, vec![Step::Yield]));
@@ -609,7 +613,7 @@ fn instant_child_body(cause: Cause, manual_link: bool, local: bool) -> vsched::B
                 Cause::Panic => {
                     let _ = p.cast(do_msg(1, vec![Step::Panic("boom")]));
                 }
-                Cause::Abort(_) => {
+                Cause::Abort(_) | Cause::AbortBomb(_) => {
                     let _ = p.cast(do_msg(1, vec![Step::Yield, Step::Tick, Step::Yield]));
                 }
                 Cause::SlowStop | Cause::DrainBacklog => p.stop(None),
@@ -717,10 +721,18 @@ pub fn plan(tier: &str) -> Plan {
             live.push((shape, at_root, Cause::Abort(k), race, false));
         }
     }
+    // the exiting node's task is dropped and its state's destructor panics while that happens
+    for k in 2..=(if thorough { 5 } else { 3 }) {
+        live.push((Shape::Chain, false, Cause::AbortBomb(k), Race::None, false));
+        live.push((Shape::Bushy, true, Cause::AbortBomb(k), Race::None, false));
+    }
     for (shape, at_root, cause, race, local) in live {
         let mut c = cfg.clone();
-        if let Cause::Abort(k) = cause {
+        if let Cause::Abort(k) | Cause::AbortBomb(k) = cause {
             c.cuts = vec![vsched::CutSpec { sel: vsched::Sel::Name(if at_root { "R".into() } else { "A".into() }), at_poll: k }];
+        }
+        if matches!(cause, Cause::AbortBomb(_)) {
+            c.tolerate_lib_panics = true;
         }
         units.push(Unit::explore(Job::new(
             format!("live/{shape:?}/{}/{cause:?}/{race:?}/{}", if at_root { "root" } else { "mid" }, if local { "local" } else { "send" }).replace(['(', ')'], ""),
